@@ -78,7 +78,7 @@ StopAll(s) == [s EXCEPT !.reg = [i \in OpIds |-> 0],
                         !.ex = [k \in KS |-> IF s.ex[k].st = "none" THEN NoEx ELSE [s.ex[k] EXCEPT !.canc = TRUE]]]
 
 TwsReact(s, sym, k) ==
-  CASE sym = "init" -> IF ~s.inited THEN R([s EXCEPT !.inited = TRUE], <<Msg("connection_ack", "")>>)
+  CASE sym \in {"init", "initslow"} -> IF ~s.inited THEN R([s EXCEPT !.inited = TRUE], <<Msg("connection_ack", "")>>)
                        ELSE CloseWith(s, 4429)
     [] sym = "initrej" -> IF ~s.inited THEN CloseWith(s, 4401) ELSE CloseWith(s, 4429)
     [] sym = "subbad" -> IF ~s.inited THEN CloseWith(s, 4401)
@@ -100,8 +100,9 @@ TwsReact(s, sym, k) ==
     [] OTHER -> CloseWith(s, 4400)              \* unknown type, malformed JSON, binary payload
 
 GwsReact(s, sym, k) ==
-  CASE sym = "init" -> R([s EXCEPT !.inited = TRUE], <<Msg("connection_ack", "")>>)
+  CASE sym \in {"init", "initslow"} -> R([s EXCEPT !.inited = TRUE], <<Msg("connection_ack", "")>>)
     [] sym = "initrej" -> R(StopAll(s), <<Msg("connection_error", "")>>)
+    [] sym = "terminate" -> R(StopAll(s), <<>>)
     [] sym = "subbad" -> IF Impl = "ref" THEN R(s, <<Msg("connection_error", "")>>) ELSE R(s, <<>>)
     [] sym = "readerr" -> R(s, <<Msg("connection_error", "")>>)
     [] sym \in {"ping", "pong", "unknown"} -> R(s, <<Msg("connection_error", "")>>)
@@ -145,6 +146,6 @@ AfterEng(s, k, what) ==
     [] OTHER         -> IF Impl = "ref" THEN [free EXCEPT !.ex[k] = over]  \* error of a subscription round
                         ELSE [s EXCEPT !.ex[k] = again]                    \* pinned: polling goes on, the id stays taken
 
-Alphabet == {"init", "initrej", "ping", "pong", "sub1q", "sub1s", "sub2q", "subbad", "comp1", "comp9", "unknown", "malformed",
+Alphabet == {"init", "initrej", "terminate", "ping", "pong", "sub1q", "sub1s", "sub2q", "subbad", "comp1", "comp9", "unknown", "malformed",
              "missingid", "binary", "readerr"}
 =============================================================================
